@@ -225,6 +225,8 @@ class Body:
                     pl = x['rawptr']
                 elif 'cast' in x:
                     pl = op_place(x['a'])
+                elif 'agg' in x and len(x['ops']) == 1 and isinstance(x['agg'], dict) and 'adt' in x['agg']:
+                    pl = op_place(x['ops'][0])  # single-field wrapper (newtype / Some(..))
                 if pl is None:
                     break
                 if pl['p']:
